@@ -13,6 +13,7 @@ manifest:
 # specifications beyond the listed properties (not in MANIFEST.json): evidence goes to evidence-extra/
 extras:
 	bin/check X01
+	bin/check X02
 # every seeded change against the check that is expected to detect it (about an hour)
 sweep:
 	python3 tools/seedsweep.py -j 3
